@@ -279,6 +279,8 @@ def ensure_tables():
     cache = os.path.join(os.path.dirname(libdir), "Tables.v")
     info_cache = os.path.join(os.path.dirname(libdir), "Tables.json")
     dst = os.path.join(COQ, "gen", "Tables.v")
+    os.makedirs(os.path.dirname(dst), exist_ok=True)
+    os.makedirs(BUILD, exist_ok=True)
     with flock(os.path.join(BUILD, "tables.lock")):
         if not (os.path.exists(cache) and os.path.exists(info_cache)):
             cxx2coq = importlib.import_module("cxx2coq")
